@@ -152,14 +152,33 @@ def run (ctx):
   for e in emits:
     facts = q.guard_facts(g, e)
     fs = q.fact_strs(g, e)
-    # the index expression used to fetch the packet that is emitted
-    rng_hi = any(_is_len_of_buf(r) and o == '<' or (_is_len_of_buf(l) and o == '>') for l, o, r, b in facts if r is not None)
-    rng_lo = any((o == '>=' and _is_zero(r)) or (o == '<=' and _is_zero(l)) or (o == '>' and _is_const(r, -1)) for l, o, r, b in facts if r is not None)
+    # the slot actually fetched for emission: self._packet_buffer[IDX]
+    fetch = [n for n in walk_no_nested(use.node) if isinstance(n, ast.Subscript) and isinstance(n.ctx, ast.Load)
+             and isinstance(n.value, ast.Attribute) and n.value.attr == BUF and not isinstance(n.slice, ast.Slice)]
+    fetch = [n for n in fetch if (lambda cn: cn is not None and (cn is e or g.dominates(cn, e)))(q.enclosing_stmt_node(g, n))
+             and not isinstance(q.enclosing_stmt_node(g, n).ast if q.enclosing_stmt_node(g, n).kind != 'cond' else None, type(None))] or fetch
+    idxs = set()
+    for n in fetch:
+      cn = q.enclosing_stmt_node(g, n)
+      if cn is not None and cn.kind == 'cond': continue      # the not-None test itself
+      idxs.add(q.linear(n.slice, use.node))
+    if len(idxs) != 1:
+      ctx.undecided('R-DOM', use, "emission only for an id inside the list", "cannot identify a unique slot index feeding the emission (%s)" % sorted(idxs), (use.module, e.ast), 'D3')
+      rng_ok = None
+    else:
+      base, c0 = list(idxs)[0]
+      lower, uppers = q.bounds_from_facts(facts, base, use.node)
+      lo_ok = lower is not None and lower + c0 >= 0
+      hi_ok = any(ub == 'len(self.%s)' % BUF and k + c0 <= 0 for ub, k in uppers)
+      rng_ok = lo_ok and hi_ok
+      ctx.ob('R-DOM', use, "emission only for an id inside the list", rng_ok,
+             "slot index %s%+d is proven within [0, len) by dominating guards" % (base, c0) if rng_ok else
+             "slot index is `%s%+d` but the dominating guards only give %s >= %s and %s: %s - an id that was never issued "
+             "reaches the list lookup (negative indices alias the last slots; too-large ones raise)" % (
+               base, c0, base, lower, ["%s < %s%+d" % (base, ub, k) for ub, k in uppers],
+               "lower bound not proven" if not lo_ok else "upper bound not proven"),
+             (use.module, e.ast), 'D3')
     notnone = any(o == 'is not' and isinstance(r, ast.Constant) and r.value is None and _is_buf_slot(l) for l, o, r, b in facts if r is not None)
-    ctx.ob('R-DOM', use, "emission only for an id inside the list", rng_hi and rng_lo,
-           "emit dominated by 0 <= idx < len(list)" if (rng_hi and rng_lo) else
-           "emission of a buffered packet is not dominated by both range checks on the slot index (facts: %s): an unknown id would raise or emit a wrong packet" % fs,
-           (use.module, e.ast), 'D3')
     ctx.ob('R-DOM', use, "emission only for a slot that is still occupied", notnone,
            "emit dominated by `slot is not None`" if notnone else
            "emission is not dominated by a test that the slot is not None (facts: %s): an already-used id would emit again / crash" % fs,
